@@ -818,7 +818,11 @@ func textRandomCase(r *Rng, s *Stream) *textCase {
 	if !c.ViaLogger && c.AddSource {
 		c.ZeroPC = r.Chance(15)
 	}
-	for i, n := 0, r.Intn(6); i < n; i++ {
+	nChain := r.Intn(6)
+	if r.Chance(5) {
+		nChain = 7 + r.Intn(10) // deep chains
+	}
+	for i, n := 0, nChain; i < n; i++ {
 		if r.Chance(45) {
 			name := textKey(r)
 			if r.Chance(8) {
